@@ -5,7 +5,8 @@ seed=$1; tier=$2; shift 2
 cd /repo || exit 2
 if ! git diff --quiet; then echo "/repo has uncommitted changes; refusing"; exit 2; fi
 git apply "/verif/seeded/$seed/patch.diff" || { echo "patch does not apply"; exit 2; }
-trap 'git -C /repo checkout -- . ' EXIT
+rm -rf /tmp/evidence.bak; cp -r /verif/evidence /tmp/evidence.bak
+trap 'git -C /repo checkout -- . ; rm -rf /verif/evidence; mv /tmp/evidence.bak /verif/evidence' EXIT
 cd /verif
 for id in "$@"; do
   out=$(./check "$id" --tier "$tier" 2>&1); code=$?
